@@ -46,6 +46,8 @@ func (self *BinaryConv) doNative(ctx context.Context, src []byte, desc *thrift.T
 		}
 	}()
 
+	// the native scanner may load a few bytes behind the end of a text that ends inside a token
+	src = rt.PadText(src)
 	jp := rt.Mem2Str(src)
 	fsm.Init(0, unsafe.Pointer(desc))
 
